@@ -1016,6 +1016,7 @@ class SurrSpec(Spec):
     name = "Surrogates"
     family = "surrogates"
     net_level = False
+    extra_attrs = ("embedding",)
 
     def cls(self):
         from pyunicorn.timeseries.surrogates import Surrogates
